@@ -661,7 +661,10 @@ fn execute_g(case: &Value) -> RunResult {
         let solo2 = solo_results.clone();
         let sanity2 = sanity_ref.clone();
         move || {
-            ruschm::verif_hooks::set_budget(6_000_000, 20_000);
+            // every program may use what it may use alone (plus the sanity programs): the
+            // budget must never be what makes an interleaved run differ
+            let nprogs = progs2.as_object().map(|o| o.len()).unwrap_or(2) as u64;
+            ruschm::verif_hooks::set_budget(3_000_000 * nprogs + 2_000_000, 20_000);
             let steps0 = ruschm::verif_hooks::steps();
             let ctx = Rc::new(RefCell::new(Ctx {
                 progs: progs2,
